@@ -1026,3 +1026,127 @@ func c14SortedAtoms(l map[string]bool) string {
 	}
 	return s
 }
+
+// ---------------------------------------------------------------------------
+// The family of depth functions
+
+// c14FlatSig: the parameter types of fn with the receiver in front, and its
+// result types.
+func c14FlatSig(fn *ssa.Function) (params, results []types.Type) {
+	for _, q := range fn.Params {
+		params = append(params, q.Type())
+	}
+	res := fn.Signature.Results()
+	for i := 0; i < res.Len(); i++ {
+		results = append(results, res.At(i).Type())
+	}
+	return
+}
+
+// c14DepthFamily: NNode.Depth together with every function that is NEW with
+// respect to the pinned tree, is statically called from a member of the family
+// and takes (node, d, cap) and returns (depth, error) exactly as Depth does. A
+// refactoring that moves the search into such a worker (and recurses through
+// it) leaves a family of more than one member. The rules then establish every
+// obligation on EVERY member, reading a call of any member as a depth query:
+// when each member is a correct depth query provided the queries it makes are,
+// all of them are (induction over the marks, as for the single function).
+func c14DepthFamily(depth *ssa.Function) []*ssa.Function {
+	pinned := PinnedFuncs()
+	wantP, wantR := c14FlatSig(depth)
+	same := func(a, b []types.Type) bool {
+		if len(a) != len(b) {
+			return false
+		}
+		for i := range a {
+			if !types.Identical(a[i], b[i]) {
+				return false
+			}
+		}
+		return true
+	}
+	fam := []*ssa.Function{depth}
+	in := map[*ssa.Function]bool{depth: true}
+	for i := 0; i < len(fam); i++ {
+		Instrs(fam[i], func(_ *ssa.BasicBlock, _ int, ins ssa.Instruction) {
+			c, ok := ins.(*ssa.Call) // a depth query is an ordinary call: not deferred, not a goroutine
+			if !ok || c.Call.IsInvoke() {
+				return
+			}
+			g := c.Call.StaticCallee()
+			if g == nil || in[g] || g.Blocks == nil || g.Parent() != nil || len(g.FreeVars) > 0 {
+				return
+			}
+			obj, ok := g.Object().(*types.Func)
+			if !ok || pinned[obj.FullName()] {
+				return
+			}
+			gp, gr := c14FlatSig(g)
+			if !same(gp, wantP) || !same(gr, wantR) {
+				return
+			}
+			in[g] = true
+			fam = append(fam, g)
+		})
+	}
+	return fam
+}
+
+// c14Forwards: fn does nothing but hand its own (node, d, cap), in this order,
+// to g and return g's two results, in this order - fn IS g.
+func c14Forwards(fn *ssa.Function) *ssa.Function {
+	if len(fn.Blocks) != 1 || fn.Recover != nil {
+		return nil
+	}
+	var call *ssa.Call
+	ex := map[int]ssa.Value{}
+	for _, in := range fn.Blocks[0].Instrs {
+		switch x := in.(type) {
+		case *ssa.DebugRef:
+		case *ssa.Call:
+			if call != nil || x.Call.IsInvoke() || x.Call.StaticCallee() == nil || len(x.Call.Args) != len(fn.Params) {
+				return nil
+			}
+			for i, a := range x.Call.Args {
+				if a != ssa.Value(fn.Params[i]) {
+					return nil
+				}
+			}
+			call = x
+		case *ssa.Extract:
+			if call == nil || x.Tuple != ssa.Value(call) {
+				return nil
+			}
+			ex[x.Index] = x
+		case *ssa.Return:
+			if call == nil || len(x.Results) != 2 || x.Results[0] != ex[0] || x.Results[1] != ex[1] || ex[0] == nil || ex[1] == nil {
+				return nil
+			}
+			return call.Call.StaticCallee()
+		default:
+			return nil
+		}
+	}
+	return nil
+}
+
+// c14RenameWord replaces the identifier `from` by `to` in a rendered term.
+func c14RenameWord(s, from, to string) string {
+	if from == to || from == "" {
+		return s
+	}
+	isId := func(c byte) bool {
+		return c == '_' || (c >= '0' && c <= '9') || (c >= 'a' && c <= 'z') || (c >= 'A' && c <= 'Z')
+	}
+	out := make([]byte, 0, len(s))
+	for i := 0; i < len(s); {
+		if i+len(from) <= len(s) && s[i:i+len(from)] == from && (i == 0 || !isId(s[i-1])) && (i+len(from) == len(s) || !isId(s[i+len(from)])) {
+			out = append(out, to...)
+			i += len(from)
+			continue
+		}
+		out = append(out, s[i])
+		i++
+	}
+	return string(out)
+}
